@@ -1,5 +1,5 @@
 """Registry: property id -> check function(ctx) -> exit code."""
-from checks import tracker, sshdfam, sshdproc, conc, healthchk, framingchk, pipeline
+from checks import tracker, sshdfam, sshdproc, conc, healthchk, framingchk, pipeline, dirreaderchk
 
 
 def _tracker(prop):
@@ -69,3 +69,11 @@ def _c08(ctx):
 
 REGISTRY["C13"] = _c13
 REGISTRY["C08"] = _c08
+
+
+def _c20(ctx):
+    cov = dirreaderchk.run(ctx)
+    return ctx.finish("model_checking", cov, dirreaderchk.ASSUME)
+
+
+REGISTRY["C20"] = _c20
